@@ -86,6 +86,9 @@ func (c *Chain) RunObserved(txs [][]byte, opt *BlockOpt, view ViewFn, withDump b
 		if view != nil {
 			ob.Final.View = view(fctx)
 		}
+		if opt != nil && opt.BeforeCommit != nil {
+			opt.BeforeCommit()
+		}
 		if opt == nil || !opt.NoCommit {
 			if _, err := c.App.Commit(); err != nil {
 				br.Err = err
